@@ -162,7 +162,7 @@ func splitFields(s string) []string {
 
 func run(id, tier, only, repo, verifDir, solver string, verbose, noReplay bool, workers, seed int) int {
 	t0 := time.Now()
-	tc := tierCfg{Tier: tier, TimeoutMs: 10000, MaxSteps: 3_000_000, MaxDecs: 400, MaxConc: 64, Preemptions: 2, Budget: 20 * time.Minute}
+	tc := tierCfg{Tier: tier, TimeoutMs: 20000, MaxSteps: 3_000_000, MaxDecs: 400, MaxConc: 64, Preemptions: 2, Budget: 30 * time.Minute}
 	if tier == "thorough" {
 		tc = tierCfg{Tier: tier, TimeoutMs: 60000, MaxSteps: 20_000_000, MaxDecs: 1200, MaxConc: 256, Preemptions: 3, Budget: 120 * time.Minute}
 	}
